@@ -621,15 +621,36 @@ func closeIdempotent(c *core.Ctx, a *Anchors, f *core.Func) (bool, string) {
 	if _, ok := ifs.Body.List[0].(*ast.ReturnStmt); !ok {
 		return false, "guard does not return"
 	}
-	cmp, ok := ast.Unparen(ifs.Cond).(*ast.BinaryExpr)
-	if !ok {
-		return false, "closed-marker is not a comparison"
+	// the closed-marker: a comparison of a field with a constant, or a bool field (possibly negated)
+	cond := ast.Unparen(ifs.Cond)
+	var markerExpr ast.Expr
+	var holds func(v constant.Value) bool
+	switch x := cond.(type) {
+	case *ast.BinaryExpr:
+		rv, ok := m.Info.Types[x.Y]
+		if !ok || rv.Value == nil {
+			return false, "closed-marker does not compare with a constant"
+		}
+		markerExpr = x.X
+		holds = func(v constant.Value) bool { return constant.Compare(v, x.Op, rv.Value) }
+	case *ast.UnaryExpr:
+		markerExpr = x.X
+		holds = func(v constant.Value) bool { return v.Kind() == constant.Bool && !constant.BoolVal(v) }
+	default:
+		markerExpr = cond
+		holds = func(v constant.Value) bool { return v.Kind() == constant.Bool && constant.BoolVal(v) }
 	}
-	lhs := m.ExprString(cmp.X)
-	rv, ok := m.Info.Types[cmp.Y]
-	if !ok || rv.Value == nil {
-		return false, "closed-marker does not compare with a constant"
+	// the marker must be the query's own state: a field path of the receiver without pointer hops
+	mp := m.AccessPath(f, markerExpr)
+	if mp.Kind != core.RootParam || mp.Index != -1 || len(mp.Fields()) == 0 {
+		return false, "closed-marker is not a field of the query itself"
 	}
+	for _, k := range mp.Fields() {
+		if o := ownerOf(k); o != f.Recv && o != "cursor" {
+			return false, "closed-marker " + m.ExprString(markerExpr) + " depends on state outside the query object (" + k + "); it cannot tell this query's Close from another's"
+		}
+	}
+	lhs := m.ExprString(markerExpr)
 	// constant store to the same expression after the guard
 	marked := false
 	releases := 0
@@ -639,7 +660,7 @@ func closeIdempotent(c *core.Ctx, a *Anchors, f *core.Func) (bool, string) {
 			for i, l := range x.Lhs {
 				if m.ExprString(l) == lhs && i < len(x.Rhs) {
 					if tv, ok := m.Info.Types[x.Rhs[i]]; ok && tv.Value != nil {
-						if constant.Compare(tv.Value, cmp.Op, rv.Value) {
+						if holds(tv.Value) {
 							marked = true
 						}
 					}
